@@ -70,6 +70,19 @@ def build(wiring):
         kept.append(s)
     stages = kept
 
+    # a `go helper.Drain(x)` on a channel that a recorded stage also reads is a hand-over: the stage
+    # spawns the drain when it leaves its loop (Operate3 after the fix, the voters after the fix)
+    stage_reader = {}
+    for idx, s in enumerate(stages):
+        if s["kind"] != "Drain":
+            for c in s["ins"]:
+                stage_reader.setdefault(c, []).append(idx)
+    for s in stages:
+        if s["kind"] == "Drain" and s["ins"] and s["ins"][0] in stage_reader:
+            parents = stage_reader[s["ins"][0]]
+            if len(parents) == 1 and stages[parents[0]]["kind"] in ("Operate3", "Vote", "Split"):
+                s["kind"] = "ADrain"
+                s["_parent"] = parents[0]
     readers = {}
     writers = {}
     for idx, s in enumerate(stages):
@@ -163,6 +176,8 @@ def build(wiring):
             k = "Seq"
         if k == "Sink":
             lab = ""
+        if k == "ADrain":
+            par = s["_parent"] + 1
         net.procs.append({"kind": k, "src": src, "ins": list(s["ins"]), "outs": list(s["outs"]),
                           "par": par, "par2": par2, "lab": lab if k in ("Source", "Map") else "",
                           "name": s.get("label", "")})
@@ -182,6 +197,12 @@ def build(wiring):
     for i, s in enumerate(stages):
         if s["kind"] == "XmaCore" and s.get("_unit_ok"):
             safe_shared.add(s["ins"][1])
+    # hand-over channels: readers = one Operate3/Vote stage plus the drains it spawns
+    for c in net.multiread:
+        ks = sorted(net.procs[r - 1]["kind"] for r in R[c])
+        if ks.count("ADrain") == len(ks) - 1 and all(
+                net.procs[r - 1]["kind"] != "ADrain" or net.procs[r - 1]["par"] in R[c] for r in R[c]):
+            safe_shared.add(c)
     net.unsafe = net.multiread - safe_shared
     for c in range(1, nchan + 1):
         if Wr[c] == 0 and R[c]:
@@ -191,7 +212,7 @@ def build(wiring):
 
 
 def emit(net, lenvecs, mode, W, offs=None, module="MC", invariants=("NoPanic", "SingleReader", "Report"),
-         extra_cfg="", seed_checked=True):
+         extra_cfg="", seed_checked=True, op_close_first=True, op3_concurrent=True):
     """returns (tla_text, cfg_text)"""
     P = net.procs
     np_, nc = len(P), len(net.caps)
@@ -220,6 +241,8 @@ def emit(net, lenvecs, mode, W, offs=None, module="MC", invariants=("NoPanic", "
            " Readers <- MCReaders", " Unsafe <- MCUnsafe", " MultiRead <- MCMultiRead", " LenVecs <- MCLenVecs",
            ' Mode = "%s"' % mode, " W = %d" % W, " Off <- MCOff",
            " SeedChecked = %s" % ("TRUE" if seed_checked else "FALSE"),
+           " OpCloseFirst = %s" % ("TRUE" if op_close_first else "FALSE"),
+           " Op3Concurrent = %s" % ("TRUE" if op3_concurrent else "FALSE"),
            "INIT Init", "NEXT Next", "CHECK_DEADLOCK FALSE"]
     if invariants:
         cfg.append("INVARIANTS " + " ".join(invariants))
